@@ -201,4 +201,173 @@ theorem r_roundtrip_fails_at_scale_two :
   have : 0 < Real.log 1.5 / 2 := by positivity
   linarith
 
+/-! ## Interval transform (IntervalTransformedParameter), hyperbolic variant -/
+
+/-- `setOriginalValue` raises exactly when the value is not strictly inside the interval -/
+theorem interval_setOriginal_raises_iff (pi : ℝ) (t : IT ℝ) (v : ℝ) :
+    IT.setOriginal pi t v = none ↔ ¬ (t.lo < v ∧ v < t.hi) := by
+  rw [IT.setOriginal_real]
+  by_cases h : v ≤ t.lo ∨ t.hi ≤ v
+  · simp only [h, if_true, true_iff]; rintro ⟨h1, h2⟩; rcases h with h | h <;> linarith
+  · simp only [h, if_false]
+    have h' := not_or.mp h
+    simp [not_le.mp h'.1, not_le.mp h'.2]
+
+/-- original → transformed → original is the identity -/
+theorem interval_roundtrip_hyper (pi : ℝ) (t : IT ℝ) (hh : t.hyper = true) (hs : t.scale ≠ 0)
+    (v : ℝ) (h1 : t.lo < v) (h2 : v < t.hi) :
+    ∃ t', IT.setOriginal pi t v = some t' ∧ IT.getOriginal pi t' = v ∧
+      t'.scale = t.scale ∧ t'.lo = t.lo ∧ t'.hi = t.hi ∧ t'.hyper = t.hyper := by
+  rw [IT.setOriginal_real, if_neg (not_or.mpr ⟨not_le.mpr h1, not_le.mpr h2⟩)]
+  refine ⟨_, rfl, ?_, rfl, rfl, rfl, rfl⟩
+  rw [IT.getOriginal_real]
+  simp only [hh, if_true]
+  rw [IT.fwd_hyper_real _ _ _ _ _ h1 h2, mul_div_cancel_left₀ _ hs, Real.tanh_artanh (IT.u_mem h1 h2)]
+  have : t.hi - t.lo ≠ 0 := by linarith
+  field_simp
+  ring
+
+/-- transformed → original → transformed is the identity -/
+theorem interval_roundtrip_hyper_coord (pi : ℝ) (t : IT ℝ) (hh : t.hyper = true) (hs : t.scale ≠ 0)
+    (hb : t.lo < t.hi) : IT.setOriginal pi t (IT.getOriginal pi t) = some t := by
+  have hg : IT.getOriginal pi t = IT.gh t.scale t.lo t.hi t.x := by
+    have := IT.getOriginal_at pi t t.x; simpa [hh] using this
+  have ⟨m1, m2⟩ := IT.gh_mem t.scale t.lo t.hi t.x hb
+  rw [hg, IT.setOriginal_real, if_neg (not_or.mpr ⟨not_le.mpr m1, not_le.mpr m2⟩)]
+  have hf : IT.fwd pi t.scale t.lo t.hi t.hyper (IT.gh t.scale t.lo t.hi t.x) = t.x := by
+    rw [hh, IT.fwd_hyper_real _ _ _ _ _ m1 m2]
+    have hw : t.hi - t.lo ≠ 0 := by linarith
+    have : 2 * (IT.gh t.scale t.lo t.hi t.x - t.lo) / (t.hi - t.lo) - 1 = Real.tanh (t.x / t.scale) := by
+      unfold IT.gh; field_simp; ring
+    rw [this, Real.artanh_tanh, mul_div_cancel₀ _ hs]
+  rw [hf]
+
+/-- every real coordinate back-transforms strictly inside the interval (whatever the scale) -/
+theorem interval_back_in_domain_hyper (pi : ℝ) (t : IT ℝ) (hh : t.hyper = true) (hb : t.lo < t.hi) :
+    t.lo < IT.getOriginal pi t ∧ IT.getOriginal pi t < t.hi := by
+  have hg : IT.getOriginal pi t = IT.gh t.scale t.lo t.hi t.x := by
+    have := IT.getOriginal_at pi t t.x; simpa [hh] using this
+  rw [hg]; exact IT.gh_mem _ _ _ _ hb
+
+/-! ## Interval transform, tangent variant.  `pi` is the constant the code uses for π -/
+
+/-- round trip with any constant `0 < pi ≤ π`: this upper bound is the hypothesis the proof forces
+(the angle `pi·(v-lo)/(hi-lo) - pi/2` must stay inside `]-π/2, π/2[`) -/
+theorem interval_roundtrip_tan (pi : ℝ) (hpi : 0 < pi) (hle : pi ≤ Real.pi) (t : IT ℝ)
+    (hh : t.hyper = false) (hs : t.scale ≠ 0) (v : ℝ) (h1 : t.lo < v) (h2 : v < t.hi) :
+    ∃ t', IT.setOriginal pi t v = some t' ∧ IT.getOriginal pi t' = v ∧
+      t'.scale = t.scale ∧ t'.lo = t.lo ∧ t'.hi = t.hi ∧ t'.hyper = t.hyper := by
+  rw [IT.setOriginal_real, if_neg (not_or.mpr ⟨not_le.mpr h1, not_le.mpr h2⟩)]
+  refine ⟨_, rfl, ?_, rfl, rfl, rfl, rfl⟩
+  rw [IT.getOriginal_real]
+  simp only [hh, if_false, Bool.false_eq_true]
+  rw [IT.fwd_tan_real, mul_div_cancel_left₀ _ hs]
+  have hw : 0 < t.hi - t.lo := by linarith
+  -- the angle is in ]-pi/2, pi/2[ ⊆ ]-π/2, π/2[
+  have hu := IT.u_mem h1 h2
+  have ha : pi * (v - t.lo) / (t.hi - t.lo) - pi / 2 = pi / 2 * (2 * (v - t.lo) / (t.hi - t.lo) - 1) := by
+    field_simp
+  have hlo : -(Real.pi / 2) < pi * (v - t.lo) / (t.hi - t.lo) - pi / 2 := by
+    rw [ha]; nlinarith [hu.1, hu.2]
+  have hhi : pi * (v - t.lo) / (t.hi - t.lo) - pi / 2 < Real.pi / 2 := by
+    rw [ha]; nlinarith [hu.1, hu.2]
+  rw [Real.arctan_tan hlo hhi]
+  have : t.hi - t.lo ≠ 0 := hw.ne'
+  field_simp
+  ring
+
+/-- with the exact π -/
+theorem interval_roundtrip_tan_exact (t : IT ℝ) (hh : t.hyper = false) (hs : t.scale ≠ 0)
+    (v : ℝ) (h1 : t.lo < v) (h2 : v < t.hi) :
+    ∃ t', IT.setOriginal Real.pi t v = some t' ∧ IT.getOriginal Real.pi t' = v ∧
+      t'.scale = t.scale ∧ t'.lo = t.lo ∧ t'.hi = t.hi ∧ t'.hyper = t.hyper :=
+  interval_roundtrip_tan Real.pi Real.pi_pos le_rfl t hh hs v h1 h2
+
+/-- with the library's `NumConstants::PI()` (regenerated from the source on every run): holds
+because `PI() < π`; it did not for the original value `3.141593` -/
+theorem interval_roundtrip_tan_lib (t : IT ℝ) (hh : t.hyper = false) (hs : t.scale ≠ 0)
+    (v : ℝ) (h1 : t.lo < v) (h2 : v < t.hi) :
+    ∃ t', IT.setOriginal libPI t v = some t' ∧ IT.getOriginal libPI t' = v ∧
+      t'.scale = t.scale ∧ t'.lo = t.lo ∧ t'.hi = t.hi ∧ t'.hyper = t.hyper :=
+  interval_roundtrip_tan libPI libPI_pos libPI_lt_pi.le t hh hs v h1 h2
+
+/-- the hypothesis `pi ≤ π` is necessary: with any larger constant the round trip fails for some
+value of every interval (this is what happened with `PI() = 3.141593`) -/
+theorem interval_roundtrip_tan_fails_of_gt (pi : ℝ) (hgt : Real.pi < pi) (hlt : pi < 2 * Real.pi)
+    (t : IT ℝ) (hh : t.hyper = false) (hs : t.scale ≠ 0) (hb : t.lo < t.hi) :
+    ∃ v t', t.lo < v ∧ v < t.hi ∧ IT.setOriginal pi t v = some t' ∧ IT.getOriginal pi t' ≠ v := by
+  have hpi := Real.pi_pos
+  have hw : 0 < t.hi - t.lo := by linarith
+  -- choose the angle θ = (π/2 + pi/2)/2 ∈ ]π/2, pi/2[ ; v = lo + (θ + pi/2)/pi * (hi - lo)
+  set θ : ℝ := (Real.pi / 2 + pi / 2) / 2 with hθ
+  have hθ1 : Real.pi / 2 < θ := by rw [hθ]; linarith
+  have hθ2 : θ < pi / 2 := by rw [hθ]; linarith
+  set v : ℝ := t.lo + (θ + pi / 2) / pi * (t.hi - t.lo) with hv
+  have hfrac1 : 0 < (θ + pi / 2) / pi := by apply div_pos <;> linarith
+  have hfrac2 : (θ + pi / 2) / pi < 1 := by rw [div_lt_one (by linarith)]; linarith
+  have h1 : t.lo < v := by rw [hv]; nlinarith
+  have h2 : v < t.hi := by rw [hv]; nlinarith
+  refine ⟨v, { t with x := IT.fwd pi t.scale t.lo t.hi t.hyper v }, h1, h2, ?_, ?_⟩
+  · rw [IT.setOriginal_real, if_neg (not_or.mpr ⟨not_le.mpr h1, not_le.mpr h2⟩)]
+  · rw [IT.getOriginal_real]
+    simp only [hh, if_false, Bool.false_eq_true]
+    rw [IT.fwd_tan_real, mul_div_cancel_left₀ _ hs]
+    have ha : pi * (v - t.lo) / (t.hi - t.lo) - pi / 2 = θ := by
+      rw [hv]; have : t.hi - t.lo ≠ 0 := hw.ne'; have : pi ≠ 0 := by linarith
+      field_simp; ring
+    rw [ha]
+    -- tan θ = tan (θ - π) and θ - π ∈ ]-π/2, π/2[
+    have hper : Real.tan θ = Real.tan (θ - Real.pi) := (Real.tan_sub_pi θ).symm
+    rw [hper, Real.arctan_tan (by linarith) (by linarith)]
+    intro hcontra
+    have hne : pi ≠ 0 := by linarith
+    have e : (θ - Real.pi + pi / 2) * (t.hi - t.lo) / pi + t.lo = v - Real.pi * (t.hi - t.lo) / pi := by
+      rw [hv]; field_simp; ring
+    rw [e] at hcontra
+    have : 0 < Real.pi * (t.hi - t.lo) / pi := div_pos (mul_pos hpi hw) (by linarith)
+    linarith
+
+/-- transformed → original → transformed, under the guard that keeps the back-transformed value
+inside the interval (automatic when `π ≤ pi`, see `interval_back_in_domain_tan`) -/
+theorem interval_roundtrip_tan_coord (pi : ℝ) (hpi : 0 < pi) (t : IT ℝ) (hh : t.hyper = false)
+    (hs : t.scale ≠ 0) (hb : t.lo < t.hi) (ha : |Real.arctan (t.x / t.scale)| < pi / 2) :
+    IT.setOriginal pi t (IT.getOriginal pi t) = some t := by
+  have hg : IT.getOriginal pi t = IT.gt pi t.scale t.lo t.hi t.x := by
+    have := IT.getOriginal_at pi t t.x; simpa [hh] using this
+  have ⟨m1, m2⟩ := IT.gt_mem_of_angle pi t.scale t.lo t.hi t.x hpi hb ha
+  rw [hg, IT.setOriginal_real, if_neg (not_or.mpr ⟨not_le.mpr m1, not_le.mpr m2⟩)]
+  have hf : IT.fwd pi t.scale t.lo t.hi t.hyper (IT.gt pi t.scale t.lo t.hi t.x) = t.x := by
+    rw [hh, IT.fwd_tan_real]
+    have hw : t.hi - t.lo ≠ 0 := by linarith
+    have : pi * (IT.gt pi t.scale t.lo t.hi t.x - t.lo) / (t.hi - t.lo) - pi / 2
+        = Real.arctan (t.x / t.scale) := by
+      unfold IT.gt; field_simp; ring
+    rw [this, Real.tan_arctan, mul_div_cancel₀ _ hs]
+  rw [hf]
+
+/-- for every constant `pi > 0` and every real coordinate the back-transformed value is within
+`(π - pi)/(2 pi)` interval widths of the interval; in particular strictly inside when `π ≤ pi` -/
+theorem interval_back_in_domain_tan_general (pi : ℝ) (hpi : 0 < pi) (t : IT ℝ) (hh : t.hyper = false)
+    (hb : t.lo < t.hi) :
+    t.lo - (Real.pi - pi) / (2 * pi) * (t.hi - t.lo) < IT.getOriginal pi t ∧
+    IT.getOriginal pi t < t.hi + (Real.pi - pi) / (2 * pi) * (t.hi - t.lo) := by
+  have hg : IT.getOriginal pi t = IT.gt pi t.scale t.lo t.hi t.x := by
+    have := IT.getOriginal_at pi t t.x; simpa [hh] using this
+  rw [hg]; exact IT.gt_mem pi _ _ _ _ hpi hb
+
+theorem interval_back_in_domain_tan (pi : ℝ) (hpi : Real.pi ≤ pi) (t : IT ℝ) (hh : t.hyper = false)
+    (hb : t.lo < t.hi) : t.lo < IT.getOriginal pi t ∧ IT.getOriginal pi t < t.hi := by
+  have hp : 0 < pi := lt_of_lt_of_le Real.pi_pos hpi
+  have ⟨h1, h2⟩ := interval_back_in_domain_tan_general pi hp t hh hb
+  have hw : 0 < t.hi - t.lo := by linarith
+  have : (Real.pi - pi) / (2 * pi) * (t.hi - t.lo) ≤ 0 := by
+    apply mul_nonpos_of_nonpos_of_nonneg _ hw.le
+    apply div_nonpos_of_nonpos_of_nonneg <;> linarith
+  constructor <;> linarith
+
+/-- with the exact π -/
+theorem interval_back_in_domain_tan_exact (t : IT ℝ) (hh : t.hyper = false) (hb : t.lo < t.hi) :
+    t.lo < IT.getOriginal Real.pi t ∧ IT.getOriginal Real.pi t < t.hi :=
+  interval_back_in_domain_tan Real.pi le_rfl t hh hb
+
 end Bpp.C11
